@@ -18,7 +18,7 @@ EX == INSTANCE Exec     \* the generic block formulas (C07 / C08 / C14) are eval
 VARIABLES l, tname, g, env, pending, viol, drift
 tvars == <<l, tname, g, env, pending, viol, drift>>
 
-Env0 == [svc |-> <<>>, h |-> 0, bxh |-> "", unordered |-> {}, admins |-> {}, relay |-> <<>>, rule |-> <<>>, chain |-> <<>>, rl |-> <<>>, nd |-> <<>>, rtyp |-> <<>>, grant |-> 0, ra |-> <<>>]
+Env0 == [svc |-> <<>>, h |-> 0, bxh |-> "", unordered |-> {}, admins |-> {}, relay |-> <<>>, rule |-> <<>>, chain |-> <<>>, rl |-> <<>>, nd |-> <<>>, rtyp |-> <<>>, grant |-> 0, ra |-> <<>>, black |-> {}]
 Init == l = 0 /\ tname = "" /\ g = GInit /\ env = Env0 /\ pending = FALSE /\ viol = {} /\ drift = {} /\ TLCSet(1, 0)
 
 SvcMap(list) == [s \in {x.svc : x \in ToSet(list)} |-> (CHOOSE x \in ToSet(list) : x.svc = s).st]
@@ -216,7 +216,8 @@ Step(e) ==
             /\ g' = GInit /\ pending' = FALSE /\ chainOfId' = <<>>
             /\ env' = [svc |-> SvcMap(e.svc), h |-> e.h, bxh |-> e.bxh, unordered |-> {e.bxh \o ":" \o u : u \in ToSet(e.unordered)},
                        admins |-> ToSet(e.admins), relay |-> RelayMap(e.relay), rule |-> RuleMap(e.rules), chain |-> ChainMap(e.chains, e.relay),
-                       rl |-> StMap(e.rlist), nd |-> StMap(e.nlist), rtyp |-> TypMap(e.rlist), grant |-> e.grant, ra |-> StMap(e.rall)]
+                       rl |-> StMap(e.rlist), nd |-> StMap(e.nlist), rtyp |-> TypMap(e.rlist), grant |-> e.grant, ra |-> StMap(e.rall),
+                       black |-> {<<x.svc, x.src>> : x \in ToSet(e.black)}]
             /\ viol' = viol \cup (IF e.setupEqual THEN {} ELSE {<<nm, l + 1, "C01_SetupDiverged", 0>>})
             /\ drift' = drift
        [] e.ev = "Submit" -> /\ pending' = TRUE /\ UNCHANGED <<g, env, viol, drift, chainOfId>>
